@@ -946,8 +946,10 @@ theorem drain_wf (sc : Script) (s : S) (h : WF s) (hp : s.pq = []) (hcq : s.cq =
         exact this),
       shut_ok := h.shut_ok, called_ok := h.called_ok, req_ok := h.req_ok, os_ok := h.os_ok,
       cbs_ok := h.cbs_ok, mon_ok := h.mon_ok, closed_ok := h.closed_ok }
+  have hpi : List.map (fun x : Req => x.id) (s.pq ++ s.cq ++ s.wq) = [] := by simp [hp, hcq, hwq]
+  have hwi : List.map (fun x : Req => x.id) s.wq = [] := by simp [hwq]
   unfold drain
-  simp only [hp, hcq, hwq, List.append_nil, List.map_nil]
+  simp only [hpi, hwi]
   split
   · exact ⟨w1, hp, rfl, rfl, id, fun hc => ⟨hc, rfl, rfl⟩, rfl⟩
   · rename_i hreq
@@ -990,7 +992,7 @@ theorem drain_wf (sc : Script) (s : S) (h : WF s) (hp : s.pq = []) (hcq : s.cq =
               split at hh
               · rename_i he
                 simp only [he, if_true]
-                exact ⟨rfl, hwq, hwr⟩
+                exact ⟨by first | rfl | trivial, hwq, hwr⟩
               · rw [hsh] at hh; cases hh),
             called_ok := w1.called_ok, req_ok := (fun hh => by cases hh),
             os_ok := w1.os_ok, cbs_ok := w1.cbs_ok,
@@ -1000,5 +1002,253 @@ theorem drain_wf (sc : Script) (s : S) (h : WF s) (hp : s.pq = []) (hcq : s.cq =
         refine ⟨a, b.pq.trans hp, b.connErr, b.closed, b.hard, ?_, b.cbs⟩
         intro hc; rw [hcl] at hc; cases hc
     · exact ⟨w1, hp, rfl, rfl, id, fun hc => ⟨hc, rfl, rfl⟩, rfl⟩
+
+theorem unsent_cancel (l : List Req) :
+    unsent (l.map fun r => { r with error := UV_ECANCELED }) = unsent l := by
+  induction l with
+  | nil => rfl
+  | cons r l ih => simp [ih, rem_error]
+
+theorem flush_wf (s : S) (h : WF s) (hx : s.closing = true ∨ s.hardErr = true) :
+    WF (flush s) ∧ (flush s).wq = [] ∧ (flush s).pq = s.pq ∧ (flush s).closing = s.closing ∧
+    (flush s).connErr = s.connErr ∧ (flush s).closed = s.closed ∧ (flush s).hardErr = s.hardErr ∧
+    (flush s).cbs = s.cbs ∧
+    (flush s).cq = s.cq ++ s.wq.map (fun r => { r with error := UV_ECANCELED }) := by
+  refine ⟨?_, rfl, rfl, rfl, rfl, rfl, rfl, rfl, rfl⟩
+  unfold flush
+  exact {
+    wqs_eq := (by
+      have := h.wqs_eq
+      simp only [unsent_append, unsent_nil, unsent_cancel] at this ⊢
+      omega),
+    wq_ok := (fun x hx => by cases hx),
+    sent_ok := (by
+      intro x hx
+      simp only [List.mem_append, List.mem_map, List.append_nil] at hx
+      rcases hx with hx | hx | ⟨y, hy, rfl⟩
+      · exact h.sent_ok x (by simp [hx])
+      · exact h.sent_ok x (by simp [hx])
+      · exact h.sent_ok y (by simp [hy])),
+    done_ok := (by
+      intro x hx
+      simp only [List.mem_append, List.mem_map] at hx
+      rcases hx with hx | hx | ⟨y, hy, rfl⟩
+      · exact h.done_ok x (by simp [hx])
+      · exact h.done_ok x (by simp [hx])
+      · refine ⟨fun hf => ?_, fun he => ?_⟩
+        · have : y.freed = true := hf
+          rw [(h.wq_ok y hy).2.2.1] at this; cases this
+        · have : UV_ECANCELED = 0 := he
+          simp [UV_ECANCELED] at this),
+    acc_eq := (by
+      have := h.acc_eq
+      rw [this]; simp [List.map_map, Function.comp_def]),
+    acc_lt := h.acc_lt, closing_ok := h.closing_ok,
+    shut_ok := (fun hh => ⟨(h.shut_ok hh).1, rfl, (h.shut_ok hh).2.2⟩),
+    called_ok := h.called_ok, req_ok := h.req_ok,
+    os_ok := (by
+      rcases hx with hc | hh
+      · rcases h.os_ok with hh | ⟨rest, hr1, _⟩
+        · exact Or.inl hh
+        · exact Or.inr ⟨rest, hr1, fun hcf => by
+            have hcf : s.closing = false := hcf
+            rw [hc] at hcf; cases hcf⟩
+      · exact Or.inl hh),
+    cbs_ok := h.cbs_ok, mon_ok := h.mon_ok,
+    closed_ok := (by
+      intro hh
+      have := h.closed_ok hh
+      exact ⟨this.1, rfl, by simp [this.2.1, this.2.2]⟩) }
+
+def Inv (s : S) : Prop := WF s ∧ s.pq = []
+
+theorem streamConnect_inv (sc : Script) (s : S) (h : WF s) (hp : s.pq = []) (hc : s.closing = false) :
+    Inv (streamConnect sc s) := by
+  have hcd : s.closed = false := by
+    cases hx : s.closed with
+    | false => rfl
+    | true => have := (h.closed_ok hx).1; rw [hc] at this; cases this
+  have w1 : WF { s with connecting := false,
+                        pollout := if s.connErr < 0 ∨ s.wq.isEmpty then false else s.pollout,
+                        hardErr := if s.connErr < 0 then true else s.hardErr } :=
+    { wqs_eq := h.wqs_eq, wq_ok := h.wq_ok, sent_ok := h.sent_ok, done_ok := h.done_ok,
+      acc_eq := h.acc_eq, acc_lt := h.acc_lt,
+      closing_ok := (by intro hh; simp only [] at hh; rw [hc] at hh; cases hh),
+      shut_ok := h.shut_ok, called_ok := h.called_ok, req_ok := h.req_ok,
+      os_ok := (by
+        rcases h.os_ok with hh | hh
+        · left; simp only [hh]; split <;> rfl
+        · by_cases he : s.connErr < 0
+          · left; simp only [he, if_true]
+          · simp only [he, if_false]; exact h.os_ok),
+      cbs_ok := h.cbs_ok, mon_ok := h.mon_ok, closed_ok := h.closed_ok }
+  obtain ⟨a, b, c⟩ := userCb_emit_wf sc _ (.conncb s.connErr) w1
+  generalize hs2 : userCb sc (emit { s with
+      connecting := false,
+      pollout := if s.connErr < 0 ∨ s.wq.isEmpty then false else s.pollout,
+      hardErr := if s.connErr < 0 then true else s.hardErr } (.conncb s.connErr)) = s2 at a b c
+  have heq : streamConnect sc s =
+      if !s2.fdOpen then s2 else if s2.connErr < 0 then writeCallbacks sc (flush s2) else s2 := by
+    rw [← hs2]; rfl
+  rw [heq]
+  have hp2 : s2.pq = [] := b.pq.trans hp
+  by_cases h1 : (!s2.fdOpen) = true
+  · rw [if_pos h1]; exact ⟨a, hp2⟩
+  · rw [if_neg h1]
+    by_cases h2 : s2.connErr < 0
+    · rw [if_pos h2]
+      have hneg : s.connErr < 0 := by
+        have := b.connErr
+        simp only [] at this
+        rw [this] at h2; exact h2
+      have hh := b.hard (by simp only [hneg, if_true])
+      obtain ⟨f1, f2, f3, f4, f5, f6, f7, f8, f9⟩ := flush_wf _ a (Or.inr hh)
+      have := writeCallbacks_wf sc _ f1 (f3.trans hp2)
+      exact ⟨this.1, this.2.1⟩
+    · rw [if_neg h2]; exact ⟨a, hp2⟩
+
+theorem streamIo_inv (sc : Script) (s : S) (h : WF s) (hp : s.pq = []) (hc : s.closing = false) :
+    Inv (streamIo sc s) := by
+  unfold streamIo
+  split
+  · exact streamConnect_inv sc s h hp hc
+  · obtain ⟨a1, a2, a3⟩ := writeLoop_wf 32 s h hc
+    obtain ⟨b1, b2, _⟩ := writeCallbacks_wf sc _ a1 (a3.trans hp)
+    simp only []
+    split
+    · rename_i hcond
+      have hwq : (writeCallbacks sc (writeLoop 32 s)).wq = [] := by
+        have := hcond.1; simpa using this
+      have hcq : (writeCallbacks sc (writeLoop 32 s)).cq = [] := by
+        have := hcond.2; simpa using this
+      have := drain_wf sc _ b1 b2 hcq hwq
+      exact ⟨this.1, this.2.1⟩
+    · exact ⟨b1, b2⟩
+
+theorem WF.closedSet {s : S} (h : WF s) (hc : s.closing = true) (hwq : s.wq = []) (hcq : s.cq = []) :
+    WF { s with closed := true } :=
+  { wqs_eq := h.wqs_eq, wq_ok := h.wq_ok, sent_ok := h.sent_ok, done_ok := h.done_ok,
+    acc_eq := h.acc_eq, acc_lt := h.acc_lt, closing_ok := h.closing_ok, shut_ok := h.shut_ok,
+    called_ok := h.called_ok, req_ok := h.req_ok, os_ok := h.os_ok, cbs_ok := h.cbs_ok,
+    mon_ok := h.mon_ok, closed_ok := fun _ => ⟨hc, hwq, hcq⟩ }
+
+theorem WF.connSet {s : S} (h : WF s) (b : Bool) : WF { s with connecting := b } :=
+  { wqs_eq := h.wqs_eq, wq_ok := h.wq_ok, sent_ok := h.sent_ok, done_ok := h.done_ok,
+    acc_eq := h.acc_eq, acc_lt := h.acc_lt, closing_ok := h.closing_ok, shut_ok := h.shut_ok,
+    called_ok := h.called_ok, req_ok := h.req_ok, os_ok := h.os_ok, cbs_ok := h.cbs_ok,
+    mon_ok := h.mon_ok, closed_ok := h.closed_ok }
+
+/-- the state just before `closed := true` in `destroy` -/
+def destroyPre (sc : Script) (s : S) : S :=
+  drain sc (writeCallbacks sc (flush
+    (if s.connecting then { userCb sc (emit s (.conncb UV_ECANCELED)) with connecting := false } else s)))
+
+theorem destroy_eq (sc : Script) (s : S) :
+    destroy sc s = userCb sc (emit { destroyPre sc s with closed := true } .closecb) := rfl
+
+def cbRec (r : Req) : CbRec := ⟨r.id, r.error, r.sent, r.total⟩
+
+theorem destroyPre_wf (sc : Script) (s : S) (h : WF s) (hp : s.pq = []) (hc : s.closing = true) :
+    WF (destroyPre sc s) ∧ (destroyPre sc s).pq = [] ∧ (destroyPre sc s).closing = true ∧
+    (destroyPre sc s).cq = [] ∧ (destroyPre sc s).wq = [] ∧
+    (destroyPre sc s).cbs = s.cbs ++
+      (s.cq ++ s.wq.map (fun r : Req => { r with error := UV_ECANCELED })).map cbRec := by
+  have s1 : ∃ s1 : S, s1 = (if s.connecting then
+      { userCb sc (emit s (.conncb UV_ECANCELED)) with connecting := false } else s) ∧
+      WF s1 ∧ s1.pq = [] ∧ s1.closing = true ∧ s1.cq = s.cq ∧ s1.wq = s.wq ∧ s1.cbs = s.cbs := by
+    refine ⟨_, rfl, ?_⟩
+    split
+    · obtain ⟨a, b, c⟩ := userCb_emit_wf sc s (.conncb UV_ECANCELED) h
+      exact ⟨a.connSet false, b.pq.trans hp, (c hc).1, (c hc).2.1, (c hc).2.2, b.cbs⟩
+    · exact ⟨h, hp, hc, rfl, rfl, rfl⟩
+  obtain ⟨s1, e1, w1, p1, c1, q1, q2, q3⟩ := s1
+  unfold destroyPre
+  rw [← e1]
+  obtain ⟨f1, f2, f3, f4, _, _, _, f8, f9⟩ := flush_wf s1 w1 (Or.inl c1)
+  obtain ⟨g1, g2, _, _, _, g6, _, g8⟩ := writeCallbacks_wf sc _ f1 (f3.trans p1)
+  obtain ⟨k1, k2, k3⟩ := g6 (f4.trans c1)
+  obtain ⟨d1, d2, _, _, _, d6, d7⟩ := drain_wf sc _ g1 g2 k2 (k3.trans f2)
+  obtain ⟨m1, m2, m3⟩ := d6 k1
+  refine ⟨d1, d2, m1, m2.trans k2, m3.trans (k3.trans f2), ?_⟩
+  rw [d7, g8, f8, f9, q1, q2, q3]; rfl
+
+theorem destroy_inv (sc : Script) (s : S) (h : WF s) (hp : s.pq = []) (hc : s.closing = true) :
+    Inv (destroy sc s) ∧ (destroy sc s).closed = true ∧ (destroy sc s).wq = [] ∧ (destroy sc s).cq = [] ∧
+    (destroy sc s).cbs = s.cbs ++
+      (s.cq ++ s.wq.map (fun r : Req => { r with error := UV_ECANCELED })).map cbRec := by
+  obtain ⟨a1, a2, a3, a4, a5, a6⟩ := destroyPre_wf sc s h hp hc
+  rw [destroy_eq]
+  obtain ⟨b1, b2, b3⟩ := userCb_emit_wf sc _ .closecb (a1.closedSet a3 a5 a4)
+  obtain ⟨c1, c2, c3⟩ := b3 a3
+  exact ⟨⟨b1, b2.pq.trans a2⟩, b2.closed, c3.trans a5, c2.trans a4, b2.cbs.trans a6⟩
+
+theorem WF.envSet {s : S} (h : WF s) (e : List Outcome) : WF { s with env := e } :=
+  { wqs_eq := h.wqs_eq, wq_ok := h.wq_ok, sent_ok := h.sent_ok, done_ok := h.done_ok,
+    acc_eq := h.acc_eq, acc_lt := h.acc_lt, closing_ok := h.closing_ok, shut_ok := h.shut_ok,
+    called_ok := h.called_ok, req_ok := h.req_ok, os_ok := h.os_ok, cbs_ok := h.cbs_ok,
+    mon_ok := h.mon_ok, closed_ok := h.closed_ok }
+
+theorem lstep_inv (sc : Script) (s : S) (op : LOp) (h : Inv s) : Inv (lstep sc s op) := by
+  obtain ⟨w, hp⟩ := h
+  cases op with
+  | api o =>
+    obtain ⟨a, b, _⟩ := apiOp_wf s o w
+    exact ⟨a, b.pq.trans hp⟩
+  | feed outs => exact ⟨w.envSet _, hp⟩
+  | runPending =>
+    simp only [lstep]
+    split
+    · rename_i hpend
+      have hc : s.closing = false := by
+        cases hx : s.closing with
+        | false => rfl
+        | true => have := (w.closing_ok hx).2.1; rw [hpend] at this; cases this
+      have w' : WF { s with pending := false } :=
+        { wqs_eq := w.wqs_eq, wq_ok := w.wq_ok, sent_ok := w.sent_ok, done_ok := w.done_ok,
+          acc_eq := w.acc_eq, acc_lt := w.acc_lt,
+          closing_ok := (by intro hh; simp only [] at hh; rw [hc] at hh; cases hh),
+          shut_ok := w.shut_ok, called_ok := w.called_ok, req_ok := w.req_ok, os_ok := w.os_ok,
+          cbs_ok := w.cbs_ok, mon_ok := w.mon_ok, closed_ok := w.closed_ok }
+      exact streamIo_inv sc _ w' hp hc
+    · exact ⟨w, hp⟩
+  | pollout =>
+    simp only [lstep]
+    split
+    · rename_i hpo
+      have hc : s.closing = false := by
+        cases hx : s.closing with
+        | false => rfl
+        | true => have := (w.closing_ok hx).2.2.1; rw [hpo] at this; cases this
+      exact streamIo_inv sc _ w hp hc
+    · exact ⟨w, hp⟩
+  | endgame =>
+    simp only [lstep]
+    split
+    · rename_i hcond
+      exact (destroy_inv sc s w hp hcond.1).1
+    · exact ⟨w, hp⟩
+
+theorem runOps_inv (sc : Script) (ops : List LOp) : ∀ s : S, Inv s → Inv (runOps sc s ops) := by
+  induction ops with
+  | nil => intro s h; exact h
+  | cons o ops ih => intro s h; exact ih _ (lstep_inv sc s o h)
+
+/-- initial states: a freshly opened stream (any configuration, any scripted environment) -/
+def initS (ipc : Bool) (shutErr connErr : Int) (connecting pollout pending : Bool)
+    (env : List Outcome) : S :=
+  { ipc := ipc, shutErr := shutErr, connErr := connErr, connecting := connecting,
+    pollout := pollout, pending := pending, env := env }
+
+theorem init_inv (ipc : Bool) (shutErr connErr : Int) (connecting pollout pending : Bool)
+    (env : List Outcome) : Inv (initS ipc shutErr connErr connecting pollout pending env) := by
+  refine ⟨?_, rfl⟩
+  exact {
+    wqs_eq := rfl, wq_ok := (fun x hx => by cases hx), sent_ok := (fun x hx => by cases hx),
+    done_ok := (fun x hx => by cases hx), acc_eq := rfl,
+    acc_lt := ⟨List.Pairwise.nil, fun i hi => by cases hi⟩,
+    closing_ok := (fun hh => by cases hh), shut_ok := (fun hh => by cases hh),
+    called_ok := (fun hh => by cases hh), req_ok := (fun hh => by cases hh),
+    os_ok := Or.inr ⟨[], rfl, fun _ => rfl⟩, cbs_ok := (fun c hc => by cases hc),
+    mon_ok := ⟨rfl, rfl, rfl, fun p hp => by cases hp⟩, closed_ok := (fun hh => by cases hh) }
 
 end UvModel.StreamW
